@@ -276,8 +276,44 @@ fn unswapped_hetbet_archives(ctx: &SeedCtx, built: &[(String, Vec<u8>)]) -> Vec<
     out
 }
 
+/// An archive longer than one 64 KiB digest unit whose 72-byte `(signature)` file lies across the unit boundary (the weak
+/// signature digest leaves that area out unit by unit).
+fn signed_straddling_archive(ctx: &SeedCtx) -> Vec<(String, Vec<u8>)> {
+    let path = ctx.scratch.join("c05-seed-signed.mpq");
+    let mut filler = 65_000usize;
+    let mut out = Vec::new();
+    for _ in 0..4 {
+        let _ = std::fs::remove_file(&path);
+        let data: Vec<u8> = (0..filler).map(|i| (i.wrapping_mul(2654435761) >> 7) as u8).collect();
+        let b = wow_mpq::ArchiveBuilder::new()
+            .version(wow_mpq::FormatVersion::V1)
+            .block_size(3)
+            .add_file_data_with_options(data, "filler.bin", 0, false, 0)
+            .add_file_data_with_options(vec![0x5A; 72], "(signature)", 0, false, 0)
+            .add_file_data_with_options(b"tail of the archive\r\n".repeat(40), "tail.txt", 0x02, false, 0);
+        if b.build(&path).is_err() {
+            break;
+        }
+        let Ok(a) = Archive::open(&path) else { break };
+        let Ok(Some(fi)) = a.find_file("(signature)") else { break };
+        let want = 65_536i64 - 30;
+        let pos = fi.file_pos as i64;
+        drop(a);
+        if pos == want {
+            if let Ok(bytes) = std::fs::read(&path) {
+                out.push(("mpq/v1-signed-across-digest-unit".to_string(), bytes));
+            }
+            break;
+        }
+        filler = (filler as i64 + (want - pos)).max(1) as usize;
+    }
+    let _ = std::fs::remove_file(&path);
+    out
+}
+
 fn mpq_seeds(ctx: &SeedCtx) -> Vec<Seed> {
     let mut all = builder_seed_archives(ctx);
+    all.extend(signed_straddling_archive(ctx));
     let extra = unswapped_hetbet_archives(ctx, &all);
     all.extend(extra);
     all.extend(external_seed_archives(ctx));
